@@ -257,7 +257,7 @@ theorem spki_is_canonical (k : PubKey) (hsize : (spkiDer k).length < 256 ^ 126) 
 
 /-- OBJECT IDENTIFIERs are minimal for every component list the writer accepts -/
 theorem oid_minimal (arcs : List Nat) (h : oidOk arcs = true) :
-    oidMinimal (oidContent arcs) = true := Proofs.Canon.oidMinimal_oidContent arcs h
+    oidMinimal (oidContent arcs) = true := Proofs.Leaf.oidMinimal_oidContent arcs h
 
 /-- the KeyUsage BIT STRING is canonical and its named-bit list minimal for *every* list of
     usages (the 512-row table lifted) -/
